@@ -581,7 +581,7 @@ func (f *fnTr) typeAssertValue(s *ast.AssignStmt, ta *ast.TypeAssertExpr, v0, ok
 // the name under which the further results of a two-valued call are asked for: the call's own name
 func (f *fnTr) multiBase(call *ast.CallExpr, en env) string {
 	if sel, ok := call.Fun.(*ast.SelectorExpr); ok && f.u.outside && !f.isOpaque(sel.X, en) && f.translatable(sel.X, en) {
-		if kd := f.kindOf(sel.X, en); kd == kTok || kd == kStrTok {
+		if kd := f.kindOf(sel.X, en); kd == kTok || kd == kStrTok || f.extObjKind(kd) {
 			return "obj." + sel.Sel.Name
 		}
 	}
